@@ -10,8 +10,8 @@ CHECK = dict(
                 "vs forced union of bbox-disjoint parts, transform chain vs stepwise application, transform of a union vs union of transforms) are checked as "
                 "expression pairs over all ordered leaf triples."),
     level_note="Trusted: compiler, lib/solid.h. Bound: <= 3 operator nodes, 4 (quick) / 6 (thorough) leaves, deviation bound 1 / 2, 7^3 / 9^3 grid; points within max(tolerance,1e-6) of either result surface are not judged.",
-    runs=[S("seq-fast", quick=600, thorough=3000, workers=16)],
+    runs=[S("seq-fast", quick=1200, thorough=5000, workers=16)],
     rule="cases = DAGs; per DAG 1 + 4k (+ 16 k(k-1)/2) histories for k intermediate nodes. distinct = canonical result meshes; non-trivial = non-empty results. transitions = history evaluations.",
-    bounds=dict(quick="6984 DAGs, deviation bound 1 (65k history evaluations), 1728 rewrite instances", thorough="6 leaves incl. a bbox-disjoint one, deviation bound 2"),
+    bounds=dict(quick="13896 DAGs in 5 families (interleaved round-robin, so a budget cut still covers every family), two base histories x deviation bound 1, rewrite pairs, lazy-bbox siblings", thorough="6 leaves incl. a bbox-disjoint one, deviation bound 2"),
     assumptions=COMMON_ASSUME + ["single thread; concurrent forcing of shared nodes is C06's"],
 )
